@@ -387,7 +387,7 @@ def run_check(prop, tier, master, workers=None, runs_override=None):
                 total_agg["violations"].extend(agg["violations"])
                 n_unknown += sum(1 for v in agg["violations"]
                                  if not any(finding_matches(e, prop, v) for e in known))
-                if n_unknown >= cfg.get("max_unknown_violations", 25) and not stopped_early:
+                if n_unknown >= int(os.environ.get("VERIF_MAX_UNKNOWN", cfg.get("max_unknown_violations", 25))) and not stopped_early:
                     stopped_early = True        # enough to report; do not burn the budget
                     for f2 in futs:
                         f2.cancel()
